@@ -658,10 +658,11 @@ run_b(const char *path)
                                 }
                                 /* leave nothing behind for the next case */
                                 if (m && !fault_sig && (uint32_t) v.f[16] == IMB_CIPHER_CUSTOM && status != IMB_STATUS_INVALID_ARGS) {
-                                        /* KNOWN LIBRARY DEFECT (see mode m, "custom cipher + in-flight hash"): flushing a
-                                         * custom-cipher job re-submits it to the hash manager and leaves a stale lane behind
-                                         * that later writes a digest through a recycled descriptor.  Do not let it poison
-                                         * the following cases: start from a fresh manager. */
+                                        /* Isolation against a library defect found by this check and repaired by 0ca5676
+                                         * (see mode m, "custom cipher + in-flight hash"): flushing a custom-cipher job
+                                         * re-submitted it to the hash manager and left a stale lane behind that later wrote
+                                         * a digest through a recycled descriptor.  Should it come back, the probe in mode m
+                                         * reports it; here it must not poison the following cases: fresh manager. */
                                         mgrs[mi].mgr = make_mgr(&mgrs[mi]);
                                         m = mgrs[mi].mgr;
                                 }
